@@ -111,6 +111,10 @@ pub(super) fn poll_connect(
         st.peer = Some(Addr::Inet(peer));
     }
     k.sockets.insert_connection(src, peer, fd);
+    // Advertise what the receive buffer can actually take, like every
+    // later segment does: a peer told "65535" starts a first flight
+    // the buffer cannot hold and then sees the window shrink under it.
+    let window = advertised_window(k.recv_buf_cap, 0);
     emit(
         k,
         src,
@@ -124,7 +128,7 @@ pub(super) fn poll_connect(
                 syn: true,
                 ..TcpFlags::default()
             },
-            window: DEFAULT_WINDOW,
+            window,
             payload: Bytes::new(),
         },
     );
@@ -545,6 +549,7 @@ fn accept_syn(
         });
     }
     k.sockets.insert_connection(local, remote, child);
+    let syn_ack_window = advertised_window(k.recv_buf_cap, 0);
     emit(
         k,
         local,
@@ -559,7 +564,7 @@ fn accept_syn(
                 ack: true,
                 ..TcpFlags::default()
             },
-            window: DEFAULT_WINDOW,
+            window: syn_ack_window,
             payload: Bytes::new(),
         },
     );
@@ -1278,6 +1283,7 @@ pub(super) fn check_retx(k: &mut Kernel) {
 /// `snd_una - 1` as the seq — matches the ISN used at initial emit,
 /// since `snd_una` was set to `isn + 1` there.
 fn emit_handshake(k: &mut Kernel, fd: Fd) {
+    let window = advertised_window(k.recv_buf_cap, 0);
     let st = k.lookup(fd).expect("retx candidate");
     let tcb = st.tcb.as_ref().expect("handshake state has tcb");
     let local = bound_endpoint(st);
@@ -1302,7 +1308,7 @@ fn emit_handshake(k: &mut Kernel, fd: Fd) {
                 ack: ack_flag,
                 ..TcpFlags::default()
             },
-            window: DEFAULT_WINDOW,
+            window,
             payload: Bytes::new(),
         },
     );
